@@ -722,6 +722,42 @@ def probe_d2(cli):
     return None
 
 
+CUT = (1 << 22) - 1       # Props/C02 exclusion_file_whole / exclusion_file_cut: the ranged form is cut from this length on
+
+
+def big_xfile(ctx, cli, ln, dist):
+    """F02-XFILE-4MIB on the real pdsh: an exclusion file whose ranged form is exactly `ln` bytes (the model is
+    quadratic in the number of names, so a file of 2^22 bytes is judged by the specification alone: the first, the
+    middle and the last name of the file are targets next to `keep1`; all three are excluded, keep1 must be what is left).
+    The replay is the recipe (the file has 4 MiB)."""
+    names = xclsys.xfile_names(ln)
+    f = os.path.join(cli.cwd, "bigx_%d" % ln)
+    with open(f, "w") as fh:
+        fh.write("".join(n + "\n" for n in names))
+    hit = [names[0], names[len(names) // 2], names[-1]]
+    args = ["-Q", "-w", "keep1," + ",".join(hit), "-x", "^" + f]
+    rc, out, err = cli.run(args, timeout=30)
+    if rc == "timeout":
+        rc, out, err = cli.run(args, timeout=180)
+    os.unlink(f)
+    got = out.split(b"\n")[-2].decode("latin1").split(",") if rc == 0 and out.count(b"\n") >= 2 else None
+    dist["xfile-%d" % ln] = "ok" if got == ["keep1"] else "timeout" if rc == "timeout" else "excluded-listed" if got else "rc%s" % rc
+    case = {"recipe": "big-xfile", "ranged-length": ln, "names": "vlib.xcl.xfile_names(%d), one per line" % ln,
+            "argv": ["-Q", "-w", "keep1," + ",".join(hit), "-x", "^FILE"]}
+    if got == ["keep1"]:
+        return True
+    if rc == "timeout":
+        ctx.offender("spin:xfile>=4MiB", "pdsh does not answer within 180 s on an exclusion file whose ranged form has %d bytes" % ln, case)
+    elif got is not None and set(got) <= set(["keep1"] + hit) and "keep1" in got:
+        ctx.offender("excluded-contacted:xfile>=4MiB" if ln >= CUT else "excluded-contacted:xfile<4MiB",
+                     "exclusion file whose ranged form has %d bytes: pdsh still lists %s (all three are in the file)" % (
+                         ln, [h for h in got if h != "keep1"]), case)
+    else:
+        ctx.offender("wrong-list:xfile-big", "exclusion file whose ranged form has %d bytes: pdsh rc=%s lists %s, stderr %r" % (
+            ln, rc, got, err[-200:]), case)
+    return False
+
+
 def probe_2br(cli):
     """F02-2BR on the real pdsh: do exclusions and filters see the names behind the second pair of brackets?
     True / False; None when the sub-tests disagree"""
@@ -840,8 +876,9 @@ def run(ctx):
         if br2 is None:
             ctx.broken.append(("C-BROKEN", "F02-2BR probe", "the two-bracket sub-tests on the real pdsh disagree"))
         PROBED["2br"] = bool(br2)
-        if ctx.replay and "ops" in json.load(open(ctx.replay))["case"]:
-            cases, profs = [], []       # a library-level history: below
+        rcase = json.load(open(ctx.replay))["case"] if ctx.replay else {}
+        if "ops" in rcase or "recipe" in rcase:
+            cases, profs = [], []       # a library-level history / a big exclusion file: below
         elif ctx.replay:
             cases = [rebase(Case.from_json(json.load(open(ctx.replay))["case"]), cli.cwd)]
             profs = ["replay"]
@@ -885,6 +922,16 @@ def run(ctx):
                     os.unlink(name)
                 except OSError:
                     pass
+        # exclusion files at the 4 MiB ceiling of list_push_hostlist (real pdsh vs specification; open finding)
+        if d2 and (not ctx.replay or "recipe" in rcase):
+            lens = [rcase["ranged-length"]] if ctx.replay else [CUT - 1, CUT] if ctx.quick() else \
+                [CUT - 1, CUT, 2 * CUT + 2, 9000000]
+            for ln in lens:
+                try:
+                    big_xfile(ctx, cli, ln, dist)
+                    cov["evaluations"] += 1
+                except Exception as e:     # noqa
+                    ctx.broken.append(("C-BROKEN", "check machinery (big exclusion file)", repr(e)))
         # distinct / non-trivial are counted on a cheap re-expansion (no further runs)
         for case in cases:
             asm = assembled_names(case)
